@@ -51,7 +51,7 @@ theorem C13_auth_command_sound (mac : Str → Str → Str) (cfg : Cfg) (st : Sta
 an unknown user and an inactive user are rejected. -/
 example :
     let mac : Str → Str → Str := fun k m => k ++ '/' :: m
-    let st : State := ⟨[⟨['a'], ['k'], true, [], []⟩, ⟨['z'], ['q'], false, [], []⟩], [], [], []⟩
+    let st : State := ⟨[⟨['a'], ['k'], true, [], []⟩, ⟨['z'], ['q'], false, [], []⟩], [], [], [], []⟩
     let cfg : Cfg := ⟨false, true, 300⟩
     gate mac cfg st none 0 " a:k/PING:PING ".toList = .pass "PING".toList ['a']
     ∧ gate mac cfg st none 0 "a:k/PINGX:PING".toList = .reject
@@ -99,7 +99,7 @@ theorem C13_write_needs_permission_fails :
       authorize st true (some bypassUserId) (.store et true) = .proceed ∧
       specWrite st bypassUserId et = false ∧
       (createUser Char.isAlphanum State.empty bypassUserId ['k'] []).1 = .invalidId :=
-  ⟨⟨[⟨bypassUserId, ['k'], true, [], []⟩], [], [], []⟩, ['e'], ⟨_, rfl, rfl⟩, by decide, by decide, by decide⟩
+  ⟨⟨[⟨bypassUserId, ['k'], true, [], []⟩], [], [], [], []⟩, ['e'], ⟨_, rfl, rfl⟩, by decide, by decide, by decide⟩
 
 /-- **Read.** For the command kinds whose handler is given the identity (QUERY in every
 spelling, including sequence queries: head type and every FOLLOWED BY / PRECEDED BY target
@@ -169,7 +169,7 @@ theorem C13_admin_only_fails :
       authorize st true (some bypassUserId) (.define ['e']) = .proceed ∧
       authorize st true (some bypassUserId) (.createUser ['x'] ['k'] ["admin".toList]) = .proceed ∧
       authorize st true (some bypassUserId) (.grant ["read".toList] [['e']] ['x']) = .proceed :=
-  ⟨⟨[⟨bypassUserId, ['k'], true, [], []⟩], [], [], []⟩, ⟨_, rfl, rfl⟩, by decide, by decide, by decide, by decide⟩
+  ⟨⟨[⟨bypassUserId, ['k'], true, [], []⟩], [], [], [], []⟩, ⟨_, rfl, rfl⟩, by decide, by decide, by decide, by decide⟩
 
 /-- **Every kind looks at the identity.** An authenticated account without any role and
 without any permission entry can make no command proceed, except PING — for the command kinds
@@ -214,7 +214,7 @@ theorem C13_every_variant_dispatched (c : Cmd) : dispatched c = true := dispatch
 but not store, nobody but the admin may define. -/
 example :
     let st : State := ⟨[⟨['e'], ['k'], true, ["editor".toList], []⟩, ⟨['v'], ['k'], true, ["viewer".toList], []⟩,
-                        ⟨['r'], ['k'], true, ["admin".toList], []⟩], [], [], []⟩
+                        ⟨['r'], ['k'], true, ["admin".toList], []⟩], [], [], [], []⟩
     authorize st true (some ['e']) (.store ['t'] true) = .proceed
     ∧ authorize st true (some ['v']) (.store ['t'] true) = .forbidden
     ∧ authorize st true (some ['v']) (.query ['t'] []) = .proceed
@@ -313,9 +313,67 @@ theorem C13_revoke_single_right (st : State) (id et : Str) (tail : List Str) (ok
   revoke_single st id et tail ok hex hna hby
 
 example :
-    let st : State := ⟨[⟨['e'], ['k'], true, ["editor".toList], [(['t'], ⟨true, true⟩)]⟩], [], [['t']], []⟩
+    let st : State := ⟨[⟨['e'], ['k'], true, ["editor".toList], [(['t'], ⟨true, true⟩)]⟩], [], [['t']], [], []⟩
     authorize st true (some ['e']) (.query ['t'] []) = .proceed
     ∧ authorize (revokeLoop st true true ['e'] [['t']]).2 true (some ['e']) (.query ['t'] []) = .forbidden := by
+  decide
+
+/-! ## Restart: reload from the auth WAL -/
+
+/-- **A restart changes no decision.** In every state reachable through the API from an empty
+user table and an empty auth WAL (any sequence of executed commands, token mintings and direct
+`AuthManager` calls), rebuilding the caches from the WAL (`load_from_db`: latest record per user,
+taken whole — explicit all-false permission entries included) yields the same authorisation
+verdict for every identity and command, the same answer of `verify_signature` for every message,
+user and signature, and the same `can_read` / `can_write` / `is_admin`. So a permission or key
+revoked before a restart stays revoked after it. (Session tokens do not survive a restart.) -/
+theorem C13_reload_keeps_decisions (mac : Str → Str → Str) (alnum : Char → Bool) (cfg : Cfg)
+    (later : List Later) :
+    let st := applyLater alnum cfg State.empty later
+    (∀ mgr uid c, authorize (reload st) mgr uid c = authorize st mgr uid c) ∧
+    (∀ msg user sig, verify mac (reload st) msg user sig = verify mac st msg user sig) ∧
+    (∀ id et, canRead (reload st) id et = canRead st id et ∧ canWrite (reload st) id et = canWrite st id et ∧
+      isAdmin (reload st) id = isAdmin st id) ∧
+    (reload st).sessions = [] := by
+  intro st
+  have h := reload_eq st (walSync_applyLater alnum cfg later State.empty walSync_empty)
+  rw [h]
+  exact ⟨fun _ _ _ => rfl, fun _ _ _ => rfl, fun _ _ => ⟨rfl, rfl, rfl⟩, rfl⟩
+
+/-- Hence: a full REVOKE issued before a restart still forbids the next QUERY and STORE after
+it, whatever role the user holds. -/
+theorem C13_revocation_survives_restart (alnum : Char → Bool) (cfg : Cfg) (before : List Later)
+    (id et : Str) (tail : List Str) (ok : Bool)
+    (hex : (findUser (applyLater alnum cfg State.empty before) id).isSome = true)
+    (hna : isAdmin (applyLater alnum cfg State.empty before) id = false) (hby : id ≠ bypassUserId) :
+    let st' := reload (applyLater alnum cfg State.empty (before ++ [.cmd (.revoke [] [et] id)]))
+    authorize st' true (some id) (.query et tail) = .forbidden ∧
+    authorize st' true (some id) (.store et ok) = .forbidden := by
+  intro st'
+  have hsplit : applyLater alnum cfg State.empty (before ++ [.cmd (.revoke [] [et] id)]) =
+      (revokeLoop (applyLater alnum cfg State.empty before) true true id [et]).2 := by
+    rw [applyLater_append]
+    simp [applyLater, applyOne, exec]
+  have hkeep := (C13_reload_keeps_decisions (fun k _ => k) alnum cfg (before ++ [.cmd (.revoke [] [et] id)])).1
+  show authorize (reload _) true (some id) (.query et tail) = .forbidden ∧
+    authorize (reload _) true (some id) (.store et ok) = .forbidden
+  rw [hkeep, hkeep, hsplit]
+  exact C13_revoke_permission_next_request _ id et tail ok hex hna hby
+
+/-- Non-vacuity: an editor whose rights on `t` were revoked (explicit all-false entry under a
+role) is refused before and after a reload, while the role still opens other types; a reload
+that dropped the all-false entry (what `dedupe_latest` must not do) would let the role decide. -/
+example :
+    let st0 := (createUser Char.isAlphanum State.empty ['e'] ['k'] ["editor".toList]).2
+    let st := (revokeLoop st0 true true ['e'] [['t']]).2
+    (findUser st ['e']).map (·.perms) = some [(['t'], ⟨false, false⟩)]
+    ∧ st.users = loadUsers st.wal   -- `WalInSync st`
+    ∧ authorize st true (some ['e']) (.store ['t'] true) = .forbidden
+    ∧ authorize (reload st) true (some ['e']) (.store ['t'] true) = .forbidden
+    ∧ authorize (reload st) true (some ['e']) (.query ['t'] []) = .forbidden
+    ∧ authorize (reload st) true (some ['e']) (.query ['o'] []) = .proceed
+    ∧ authorize { st with users := st.users.map (fun u => { u with perms := u.perms.filter (fun p => p.2.read || p.2.write) }) }
+        true (some ['e']) (.store ['t'] true) = .proceed := by
   decide
 
 /-! ## Credential-like text inside payloads -/
@@ -349,7 +407,7 @@ theorem C13_payload_cannot_spoof_fails :
       gate mac ⟨false, true, 300⟩ st none 0 line ≠ .pass cmd ['a'] ∧
       ∃ c', gate mac ⟨false, true, 300⟩ st none 0 line = .pass c' ['b'] :=
   ⟨fun k m => k ++ m,
-    ⟨[⟨['a'], ['k'], true, [], []⟩, ⟨['b'], ['q'], true, [], []⟩], [⟨['f'], ['b'], 10⟩], [], []⟩,
+    ⟨[⟨['a'], ['k'], true, [], []⟩, ⟨['b'], ['q'], true, [], []⟩], [⟨['f'], ['b'], 10⟩], [], [], []⟩,
     "a:kX TOKEN f:X TOKEN f".toList, "X TOKEN f".toList,
     ⟨_, rfl, rfl, by decide⟩, by decide, ⟨"a:kX TOKEN f:X".toList, by decide⟩⟩
 
@@ -357,7 +415,7 @@ theorem C13_payload_cannot_spoof_fails :
 ` TOKEN <live token>` keeps the signer's identity. -/
 example :
     let mac : Str → Str → Str := fun k _ => k
-    let st : State := ⟨[⟨['a'], ['k'], true, [], []⟩, ⟨['b'], ['q'], true, [], []⟩], [⟨['f'], ['b'], 10⟩], [], []⟩
+    let st : State := ⟨[⟨['a'], ['k'], true, [], []⟩, ⟨['b'], ['q'], true, [], []⟩], [⟨['f'], ['b'], 10⟩], [], [], []⟩
     TokensHex st ∧
     gate mac ⟨false, true, 300⟩ st none 0 "a:k:S {\"s\":\"x TOKEN f\"}".toList
       = .pass "S {\"s\":\"x TOKEN f\"}".toList ['a'] := by
